@@ -29,11 +29,11 @@ func (t Term) String() string {
 
 // Doc is one logical document.
 type Doc struct {
-	ID int               `json:"id"`
-	T  map[string][]Term `json:"t"` // text field -> tokens
-	N  map[string][]int  `json:"n"` // numeric field -> values
-	D  map[string][]int  `json:"d"` // date field -> whole seconds
-	K  map[string][]Term `json:"k"` // keyword field -> values (aggregations / sorting)
+	ID int                `json:"id"`
+	T  map[string][]Term  `json:"t"`           // text field -> tokens
+	N  map[string][]int   `json:"n"`           // numeric field -> values
+	D  map[string][]int   `json:"d"`           // date field -> whole seconds
+	K  map[string][]Term  `json:"k"`           // keyword field -> values (aggregations / sorting)
 	G  map[string][][]int `json:"g,omitempty"` // geo point field -> [lon, lat] in whole degrees
 }
 
@@ -169,11 +169,13 @@ type Q struct {
 	Nots   []*Q     `json:"nots,omitempty"`
 	Min    int      `json:"min"`
 	// geo bounding box in half degrees (so that no point lies on an edge): left, top, right, bottom
-	GL, GT, GR, GB int `json:"-"`
+	GL, GT, GR, GB int   `json:"-"`
 	Box            []int `json:"box,omitempty"`
 	// geo distance: centre <<lon, lat>> in whole degrees (one of GeoCentres) and radius in km
 	C  []int `json:"c,omitempty"`
 	Km int   `json:"km,omitempty"`
+	// regexp: prefix the pattern with (?i) and give its letters in upper case
+	CI bool `json:"ci,omitempty"`
 }
 
 // Re is a regular expression tree.
@@ -317,6 +319,11 @@ func (q *Q) Real() (bluge.Query, error) {
 		}
 		return bluge.NewWildcardQuery(sb.String()).SetField(q.F), nil
 	case "regexp":
+		if q.CI {
+			// case-insensitive flag with the pattern's letters in upper case: the indexed terms are lower case, so the
+			// meaning over them is that of the plain pattern
+			return bluge.NewRegexpQuery("(?i)" + strings.ToUpper(q.R.String())).SetField(q.F), nil
+		}
 		return bluge.NewRegexpQuery(q.R.String()).SetField(q.F), nil
 	case "fuzzy":
 		return bluge.NewFuzzyQuery(q.V.String()).SetField(q.F).SetFuzziness(q.Fuzz).SetPrefix(q.Pre), nil
@@ -543,7 +550,7 @@ func RandLeaf(r *rand.Rand, rich bool) *Q {
 		q.Lo, q.Hi = lo, hi
 		return q
 	case 10:
-		return &Q{T: "regexp", F: field(r), R: randRe(r, 2)}
+		return &Q{T: "regexp", F: field(r), R: randRe(r, 2), CI: r.Intn(3) == 0}
 	case 11:
 		return &Q{T: "term", F: "_id", V: nil} // replaced below: lookups by id are C01's business
 	case 12, 13:
@@ -692,6 +699,7 @@ func FromJSON(m map[string]any) *Q {
 		}
 	case "regexp":
 		q.R = reFrom(m["r"].(map[string]any))
+		q.CI = b("ci")
 	case "trange":
 		q.Lo, q.Hi = toTerm(m["lo"]), toTerm(m["hi"])
 	case "geobox":
